@@ -73,9 +73,23 @@ func needsEscape(comps []pathComp) bool {
 	return false
 }
 
+// normComp: a path component is text ("0" addresses element 0 of an array as well as member "0" of an object).
+func normComp(cur JNode, c pathComp) pathComp {
+	if cur.K == "arr" && !c.IsIdx {
+		if i, err := strconv.Atoi(c.Key); err == nil && i >= 0 && strconv.Itoa(i) == c.Key {
+			return pathComp{Idx: i, IsIdx: true}
+		}
+	}
+	if cur.K == "obj" && c.IsIdx {
+		return pathComp{Key: strconv.Itoa(c.Idx)}
+	}
+	return c
+}
+
 func (n JNode) at(comps []pathComp) (JNode, bool) {
 	cur := n
 	for _, c := range comps {
+		c = normComp(cur, c)
 		switch {
 		case cur.K == "arr" && c.IsIdx && c.Idx < len(cur.Kids):
 			cur = cur.Kids[c.Idx]
@@ -104,7 +118,7 @@ func (n JNode) set(comps []pathComp, v JNode) JNode {
 	}
 	out := n
 	out.Kids = append([]JNode{}, n.Kids...)
-	c := comps[0]
+	c := normComp(n, comps[0])
 	if c.IsIdx {
 		out.Kids[c.Idx] = n.Kids[c.Idx].set(comps[1:], v)
 		return out
